@@ -8,7 +8,7 @@ EXPL = ("C01 is decided by engine A as a chain of contracts from ColorPair.make_
 
 
 def run(args):
-    ck = standard_check('C01', args, 'proof', EXPL, CHAIN, ['shape', 'valid', 'flag_iff'])
+    ck = standard_check('C01', args, 'proof', EXPL, CHAIN, ['shape', 'valid', 'flag_iff'], extra=lambda ck, prog: roundtrip_lemma(ck, args.tier))
     ck.assume('calculate_contrast_ratio(a,b) == CR(a,b) = WCAG 2 contrast ratio, finite, in [1,21] (check C05, engines B+D)',
               'READ(rgbint_to_string t) = t; READ(format_color(t,f)) = CSS(format_color(t,f)) = t for all 2^24 t and the four reachable formats (check C06, engine D)',
               'Color.__init__ establishes: _rgb is None or an int triple in 0..255; an 8-bit int triple parses to itself (checks C14, C07)',
@@ -18,5 +18,9 @@ def run(args):
 
 
 def replay(args):
+    import json
+    if 'format' in (json.load(open(args.replay)).get('concrete_input') or {}):
+        from . import C06
+        return C06.replay(args)
     from .replay import replay_make_readable
     return replay_make_readable('C01', args)
